@@ -200,17 +200,20 @@ def record_emitter(Dumper):
             del Dumper.choose_scalar_style
 
 
-def scalar_violation(ctx, s, fmt, what, origin):
-    ctx.violation(what, {"kind": "scalar", "s": s, "codes": codes(s), "format": fmt, "origin": origin})
+def scalar_violation(ctx, s, fmt, what, origin, position="value"):
+    ctx.violation(what, {"kind": "scalar", "s": s, "codes": codes(s), "format": fmt, "origin": origin, "position": position})
 
 
-def real_str_roundtrip(s, fmt):
-    """the property on the smallest real parser: one str argument"""
+def real_str_roundtrip(s, fmt, position="value"):
+    """the property on the smallest real parser: one str argument (or Dict[str,int] / List[str] for a key / an item)"""
+    from typing import Dict, List
+
     from jsonargparse import ArgumentError, ArgumentParser
 
     p = ArgumentParser(exit_on_error=False)
-    p.add_argument("--s", type=str)
-    cfg = p.parse_object({"s": s})
+    p.add_argument("--s", type={"value": str, "key": Dict[str, int], "item": List[str]}[position])
+    val = {"value": s, "key": {s: 1}, "item": [s]}[position]
+    cfg = p.parse_object({"s": val})
     try:
         text = p.dump(cfg, format=fmt, skip_none=False)
     except Exception as ex:  # noqa: BLE001
@@ -219,7 +222,7 @@ def real_str_roundtrip(s, fmt):
         back = p.parse_string(text)
     except ArgumentError as ex:
         return "re-parse rejected: %s" % str(ex)[:120].replace("\n", " ")
-    if type(back.s) is not str or back.s != s:
+    if E.canon(back.s) != E.canon(val):
         return "re-parsed as %r" % (back.s,)
     return None
 
@@ -246,8 +249,9 @@ FINDING_TEXT = {
 }
 
 
-def correspond_yaml_strings(ctx, m, strings, origin):
-    """real yaml_dump / yaml_load on {'k': s} vs the model (Lean driver) given the emitter's analysis"""
+def correspond_yaml_strings(ctx, m, strings, origin, position="value"):
+    """real yaml_dump / yaml_load on {'k': s} (position value), {s: 1} (key) or [s] (item) vs the model (Lean
+    driver) given the emitter's analysis"""
     from jsonargparse import _loaders_dumpers as ld
 
     Dumper = m["cap"]["Dumper"]
@@ -264,9 +268,10 @@ def correspond_yaml_strings(ctx, m, strings, origin):
                 continue
         else:
             d, l, img = py_tags(m, s)
+        doc = {"k": s} if position == "value" else ({s: 1} if position == "key" else [s])
         with record_emitter(Dumper) as log:
             try:
-                text = ld.dumpers["yaml"]({"k": s})
+                text = ld.dumpers["yaml"](doc)
             except Exception as ex:  # noqa: BLE001
                 bad.append({"what": "yaml_dump raises %s" % type(ex).__name__, "s": s})
                 continue
@@ -286,7 +291,12 @@ def correspond_yaml_strings(ctx, m, strings, origin):
         # load side
         try:
             back = ld.loaders["yaml"](text)
-            got = back["k"] if isinstance(back, dict) and "k" in back else ("<no k>", back)
+            if position == "value":
+                got = back["k"] if isinstance(back, dict) and "k" in back else ("<no k>", back)
+            elif position == "key":
+                got = next(iter(back)) if isinstance(back, dict) and len(back) == 1 else ("<not one key>", back)
+            else:
+                got = back[0] if isinstance(back, list) and len(back) == 1 else ("<not one item>", back)
         except Exception as ex:  # noqa: BLE001
             got = ("<exception>", type(ex).__name__)
         if ev["style"] == "":
@@ -298,7 +308,7 @@ def correspond_yaml_strings(ctx, m, strings, origin):
                 ok = want_type is not None and type(got) is want_type
             if l != 0:
                 # the model itself predicts a non-str: the agreement is broken on this string
-                scalar_violation(ctx, s, "yaml", "str %r is written plain and read back as %r" % (s, got), origin)
+                scalar_violation(ctx, s, "yaml", "str %r is written plain (%s position) and read back as %r" % (s, position, got), origin, position)
             elif not ok:
                 fid = known_scalar(ctx, s, "yaml")
                 if fid:
@@ -312,7 +322,7 @@ def correspond_yaml_strings(ctx, m, strings, origin):
                 if fid:
                     ctx.known(fid, FINDING_TEXT[fid])
                 else:
-                    scalar_violation(ctx, s, "yaml", "quoted str %r is read back as %r" % (s, got), origin)
+                    scalar_violation(ctx, s, "yaml", "quoted str %r (%s position) is read back as %r" % (s, position, got), origin, position)
         if d == 0 and s:
             ctx.nontrivial("y:" + s)
     return bad
@@ -530,7 +540,7 @@ def run(ctx: Ctx):
     corpus_strings = [s for c in corpus if c.get("kind") == "strings" for s in c["strings"]]
     sg_seed = E.StrGen(m, ctx.rng, avoid={0x85})
     sg_fixed = E.StrGen(m, fixed_rng)
-    n_str = ctx.budget(2500, 15000) * (2 if boost() > 1 else 1)
+    n_str = ctx.budget(2500, 12000) * (2 if boost() > 1 else 1)
     gen_strings = [sg_seed.sample() for _ in range(n_str)]
     # obligations that are false on the regenerated tables: their shortest words are tried first (after the corpus)
     from ..extractors import resolvers as rx_mod
@@ -555,6 +565,9 @@ def run(ctx: Ctx):
 
     # ---------------- 3. correspondence
     bad = correspond_yaml_strings(ctx, m, all_strings, "generated")
+    n_pos = ctx.budget(500, 5000)
+    bad += correspond_yaml_strings(ctx, m, all_strings[:n_pos], "generated", position="key")
+    bad += correspond_yaml_strings(ctx, m, all_strings[:n_pos], "generated", position="item")
     json_strings = list(dict.fromkeys(corpus_strings + [s for s in gen_strings[: n_str // 2]] +
                                       ["".join(fixed_rng.choice(["a", " ", "\xe9", "\U0001f600", '"', "\\", "\n", "\t", "\x01", "\x1f", "/", "\ufeff", "\ud7ff", "\ue000", "\U0010ffff"])
                                                for _ in range(fixed_rng.randint(1, 6))) for _ in range(ctx.budget(200, 2000))]))
@@ -596,7 +609,7 @@ def run(ctx: Ctx):
         if not res.accepted:
             raise MachineryError("corpus case is no longer accepted: %s (%s)" % (c.get("name"), res.reject_reason))
         ctx.nontrivial("e:" + json.dumps(c["case"], sort_keys=True, default=repr))
-    n_seed = ctx.budget(700, 7000) * boost(3)
+    n_seed = ctx.budget(700, 6000) * boost(3)
     accepted = 0
     for i in range(n_seed):
         if enough(ctx):
@@ -610,7 +623,7 @@ def run(ctx: Ctx):
             if i < 3:
                 ctx.sample({"spec": [(a["name"], E.type_shape(a["type"])) for a in case["spec"]["args"]], "obj": case["obj"]})
     # wider exploration with a fixed internal seed (known-finding classes allowed; anything else is a violation)
-    n_wide = ctx.budget(450, 6000) * boost(3)
+    n_wide = ctx.budget(450, 5000) * boost(3)
     for i in range(n_wide):
         if enough(ctx):
             break
@@ -716,8 +729,8 @@ def replay(ctx: Ctx, body):
     kind = r.get("kind")
     if kind == "scalar":
         s = "".join(chr(c) for c in r["codes"]) if "codes" in r else r["s"]
-        why = real_str_roundtrip(s, r["format"])
-        print("str value %r, dump(format=%s): %s" % (s, r["format"], why or "round trip holds"))
+        why = real_str_roundtrip(s, r["format"], r.get("position", "value"))
+        print("str %r (%s position), dump(format=%s): %s" % (s, r.get("position", "value"), r["format"], why or "round trip holds"))
         return 1 if why else 0
     if kind == "e2e":
         try:
